@@ -22,6 +22,11 @@ def withinEps (cr L price : Int) : Bool :=
   let M := 2 * price * P * P - L * P - 2 * L
   decide (0 < M) && decide ((cr - 2 - L) * M < L * L * (P + 2))
 
+/-- `CR` is below `L` by more than the proved bound of `C05_block_complete_bound`
+    (such a CDP is inside the block liquidator's scan range) -/
+def beyondEpsBelow (cr L price : Int) : Bool :=
+  decide ((cr + 2) * (P * P) * (price * P + L) ≤ price * (P * P * P * L - (P + 1) * (price * P + L)))
+
 def gapTag (cr L price : Int) : String :=
   if withinEps cr L price then "at-ratio-within-eps" else "above-ratio"
 
@@ -174,7 +179,7 @@ def preds (u : U) (kind : String) (args : List Int) (pre post : Obs) (tol : List
                 let missed := post.cdps.any (fun e =>
                   e.2.ty == ty && isSynced sPost e.2 &&
                   (match crOf u e.2 e.2.coll (e.2.prin + e.2.fees) (some pl) with
-                   | some r => decide (r.m < cp.liqRatio.m) && !withinEps (2 * cp.liqRatio.m - r.m) cp.liqRatio.m pl.m
+                   | some r => beyondEpsBelow r.m cp.liqRatio.m pl.m
                    | none => false))
                 if missed && goneT.length < cnt then some ("C05_block_complete", "below-ratio-not-seized") else none
           | _, _ => none)
